@@ -89,7 +89,8 @@ def gen_value(hint, rng, depth=0):
     if not isinstance(hint, type):
         raise Skip(hint)
     if issubclass(hint, enum.Enum):
-        return rng.choice(list(hint)).value
+        m = rng.choice(list(hint))
+        return m if rng.random() < 0.3 else m.value
     if issubclass(hint, bool):
         return rng.choice([True, False])
     if issubclass(hint, BaseModel):
@@ -103,10 +104,17 @@ def gen_value(hint, rng, depth=0):
                 pass
         return gen_model_dict(hint, rng, depth + 1)
     if issubclass(hint, Duration):
+        if rng.random() < 0.3:  # an OBJECT as input (constructor / assignment), incl. calendar parts
+            return rng.choice([hint(seconds=90), hint(days=1, hours=2), hint(years=1, months=2, days=3, seconds=4), hint(months=1),
+                               hint(weeks=2), hint(seconds=0), hint(days=-1, seconds=0.5)])
         return rng.choice(DURS)
     if issubclass(hint, PintUnit):
+        if rng.random() < 0.3:
+            return hint(rng.choice(UNITS[:6]))
         return rng.choice(UNITS)
     if issubclass(hint, PintQuantity):
+        if rng.random() < 0.3:
+            return hint(rng.choice(QTYS[:6]))
         return rng.choice(QTYS)
     if issubclass(hint, pydantic.AnyUrl):
         return rng.choice(URLS)
